@@ -151,8 +151,11 @@ def run(pid, tier, seed):
             violations.append(dict(replay=path, what="history %s (focus %s): line %d (%s) is not a behaviour of BuildSystem.tla: %s" % (sd, pid, rj["at"], ev.get("e"), rj["reason"]), fingerprint=fp))
     log("[%s] traces: %d histories, %d accepted, %d events, %d rejections (%.0fs)" % (pid, len(execs), accepted, events, nrej, time.time() - t0))
     nontriv = sum(1 for m in meta if m["nran"] > 0 and m["nbuilds"] >= 3)
-    p0 = mc[0]["parse"] if mc else dict(distinct=None, states=None, depth=None)
-    cov = dict(states=p0["distinct"], transitions=p0["states"], depth=p0["depth"], exhaustive=True,
+    def tot(f, agg=sum):
+        xs = [m["parse"][f] for m in mc if m["parse"].get(f) is not None]
+        return agg(xs) if xs else None
+    cov = dict(states=tot("distinct"), transitions=tot("states"), depth=tot("depth", max), exhaustive=True,
+               mc_per_config={m["cfg"]: dict(distinct=m["parse"]["distinct"], generated=m["parse"]["states"], depth=m["parse"]["depth"]) for m in mc},
                traces_validated_against_impl=accepted, evaluations=events, histories=len(execs),
                builds=sum(m["nbuilds"] for m in meta), commands_executed=sum(m["nran"] for m in meta), distinct_nontrivial=nontriv,
                rule="non-trivial = histories with at least three builds in which at least one command executed; every line of an accepted history (build key, every needs-to-run callback with its reason, every command start/finish with status, build result, file-system changes, every database row with epochs/value kind/dependencies/signature) matched the outcome BuildSystem.tla computes",
